@@ -339,6 +339,18 @@ namespace bloch::runtime {
         void setEcho(bool enabled) { m_echoEnabled = enabled; }
         void setWarnOnExit(bool enabled) { m_warnOnExit = enabled; }
         const auto& trackedCounts() const { return m_trackedCounts; }
+#ifdef BLOCH_VERIF
+        // Read-only projections for the conformance harnesses.
+        const QasmSimulator& verifSim() const { return m_sim; }
+        std::vector<int> verifMeasuredFlags() const {
+            std::vector<int> f;
+            for (const auto& q : m_qubits) f.push_back(q.measured ? 1 : 0);
+            return f;
+        }
+        const std::vector<int>& verifFreeList() const { return m_freeQubitIndices; }
+        const std::vector<int>& verifLastMeasurement() const { return m_lastMeasurement; }
+        const std::vector<std::string>& verifEchoBuffer() const { return m_echoBuffer; }
+#endif
         // Test helper to observe whether the GC worker was started for this run.
         bool gcThreadStartedForTest() const { return m_gcThreadStarted; }
 
